@@ -42,11 +42,11 @@ BOUNDED_CASES = {
     "C07": [("consistent_sampling", None), ("assign_sample_nums", None), ("data_and_pvalues", ("only cards whose CVR",))],
     "C08": [("make_phantoms", None), ("overstatement", ("phantom",))],
     "C09": [("data_and_pvalues", ("recorded p-value", "proved reflects", "measured risk", "complete iff", "reset restores"))],
-    "C10": [("sampling_escalation", None), ("escalation_pvalues", None)],
+    "C10": [("sampling_escalation", None), ("escalation_pvalues", None), ("prep_samples", None)],
     "C14": [("raire_readers", ("both readers", "load_contests_from_raire")), ("irv_predicates", None)],
     "C15": [("raire", ("largest difficulty",))],
     "C16": [("interleave_values", None), ("find_sample_size", None), ("audit_find_sample_size", None)],
-    "C17": [("manifests", None)],
+    "C17": [("manifests", None), ("prep_samples", None)],
     "C18": [("merge_cvrs", None), ("raire_readers", ("from_raire",))],
     "C19": [("dominion_read_cvrs", None)],
     "C20": [("irv_tree", None)],
